@@ -852,12 +852,14 @@ ComponentPtr flattenComponent(const ComponentEntityPtr &parent, ComponentPtr &co
         // Take a copy of the imported component which will be used to replace the import defined in this model.
         auto importedComponentCopy = importedComponent->clone();
         importedComponentCopy->setName(component->name());
-        for (size_t i = 0; i < component->componentCount(); ++i) {
-            importedComponentCopy->addComponent(component->component(i));
-        }
 
-        // Get list of required units from component's variables and math cn elements.
+        // Get list of required units from component's variables and math cn elements. The components that the importing
+        // model encapsulates below the import element join afterwards: the units they use are the importing model's.
         std::vector<UnitsPtr> requiredUnits = unitsUsed(clonedImportModel, importedComponentCopy);
+
+        while (component->componentCount() > 0) {
+            importedComponentCopy->addComponent(component->component(0));
+        }
 
         std::vector<UnitsPtr> uniqueRequiredUnits;
         StringStringMap aliasedUnitsNames;
